@@ -64,7 +64,7 @@ def gen_cfg(rng, counting=None, small=True):
     max_swaps = rng.choice([1, 2, 2, 3, 4, 5, 6])
     finger_size = rng.choice([1, 1, 2, 3, 4])
     auto_expand = rng.random() < 0.5
-    expansion_rate = rng.choice([2, 2, 3])
+    expansion_rate = rng.choice([2, 2, 2, 3, 3, 1])  # 1: a legal but non-growing rate (an "expansion" rebuilds a table of the same size)
     return Cfg(counting, capacity, bucket_size, max_swaps, finger_size, auto_expand, expansion_rate, "library_default", None)
 
 
@@ -103,7 +103,7 @@ def gen_history(rng, keys, n, p_remove=0.2, p_expand=0.05, p_reload=0.05, p_auto
     for _ in range(n):
         r = rng.random()
         if r > 1 - p_auto:
-            ops.append(("auto", rng.random() < 0.5))
+            ops.append(("auto", rng.random() < 0.5) if rng.random() < 0.7 else ("rate", rng.choice([1, 2, 3])))
         elif r < p_remove:
             ops.append(("remove", rng.choice(keys)))
         elif r < p_remove + p_expand:
@@ -142,8 +142,8 @@ def run_history(ctx, P, cfg, keys, ops, scratch, oracle, on_new=None, stats=None
     from probables.exceptions import CuckooFilterFullError
 
     if not hasattr(cfg, "_auto0"):
-        cfg._auto0 = cfg.auto_expand
-    cfg.auto_expand = cfg._auto0
+        cfg._auto0, cfg._rate0 = cfg.auto_expand, cfg.expansion_rate
+    cfg.auto_expand, cfg.expansion_rate = cfg._auto0, cfg._rate0
     f = cfg.make(P)
     if on_new:
         on_new(f)
@@ -188,6 +188,10 @@ def run_history(ctx, P, cfg, keys, ops, scratch, oracle, on_new=None, stats=None
             except CuckooFilterFullError as e:
                 outcome = ("full", e)
                 stats["failed_expansions"] += 1
+        elif kind == "rate":
+            f.expansion_rate = op[1]  # the documented setter
+            cfg.expansion_rate = op[1]
+            outcome = ("ok", None)
         elif kind == "auto":
             f.auto_expand = op[1]  # the documented setter: switch automatic expansion on/off in the middle of a history
             cfg.auto_expand = bool(op[1])
